@@ -183,6 +183,8 @@ pub struct Ctx {
     rule: Mutex<String>,
     assumptions: Mutex<Vec<String>>,
     pub strict: bool,
+    /// do not write the evidence file (a replay that re-runs part of a tier)
+    pub no_evidence: bool,
 }
 
 impl Ctx {
@@ -207,6 +209,7 @@ impl Ctx {
             rule: Default::default(),
             assumptions: Default::default(),
             strict: tier == Tier::Replay,
+            no_evidence: false,
         }
     }
 
@@ -363,7 +366,7 @@ impl Ctx {
             println!("  signature: {}", f.signature);
             println!("  detail:    {}", f.detail);
         }
-        if self.tier != Tier::Replay {
+        if self.tier != Tier::Replay && !self.no_evidence {
             let mut cov = serde_json::Map::new();
             cov.insert("evaluations".into(), json!(self.evaluations.load(Ordering::Relaxed)));
             cov.insert("distinct_nontrivial".into(), json!(self.distinct.len()));
@@ -476,12 +479,26 @@ where
 }
 
 /// as `run_prop` with a bound on the number of shrinking steps (for cases that cost seconds each)
+///
+/// A failure that does not repeat when the (shrunk, then the original) case is evaluated again is handled as follows.
+/// In-process strata are pure functions of the case as far as the harness is concerned, so the difference comes from
+/// the code under test: its result depends on what it was given before (a cache, a buffer that survives an error).
+/// That is reported as a violation whose replay re-runs this stratum from its seed up to the failing case
+/// (`stratum-prefix`), which reproduces it. Strata that talk to another process ("e2e-", "cli-", "py-" ...) are
+/// subject to scheduling; there such a failure is counted under `excluded` and not judged.
 pub fn run_prop_shrink<S>(ctx: &Ctx, stratum: &str, cases: u32, max_shrink_iters: u32, strat: S, f: impl Fn(&S::Value) -> Check)
 where
     S: proptest::strategy::Strategy,
     S::Value: std::fmt::Debug,
 {
     use proptest::test_runner::{Config, RngAlgorithm, RngSeed, TestCaseError, TestError, TestRunner};
+    let only = std::env::var("VERIF_ONLY_STRATUM").ok();
+    let (cases, max_shrink_iters) = match &only {
+        Some(o) if o != stratum => return,
+        Some(_) => (std::env::var("VERIF_MAX_CASES").ok().and_then(|x| x.parse().ok()).unwrap_or(cases), 0),
+        None => (cases, max_shrink_iters),
+    };
+    let external = ["e2e-", "cli-", "py-"].iter().any(|p| stratum.starts_with(p));
     let algo = match std::env::var("VERIF_RNG").ok().as_deref() {
         Some("xorshift") => RngAlgorithm::XorShift,
         _ => RngAlgorithm::ChaCha,
@@ -499,17 +516,19 @@ where
     };
     let mut runner = TestRunner::new(cfg);
     let failed = AtomicBool::new(false);
+    let evaluated = AtomicU64::new(0);
+    let first: Mutex<Option<(u64, Failure)>> = Mutex::new(None);
     let res = runner.run(&strat, |v| {
-        if failed.load(Ordering::Relaxed) {
-            // shrinking phase: stop counting
-        }
+        let n = if failed.load(Ordering::Relaxed) { 0 } else { evaluated.fetch_add(1, Ordering::Relaxed) + 1 };
         match f(&v) {
             Ok(()) => Ok(()),
             Err(fl) => {
                 if !ctx.strict && ctx.is_known(&fl) {
                     return Ok(());
                 }
-                failed.store(true, Ordering::Relaxed);
+                if !failed.swap(true, Ordering::Relaxed) {
+                    *first.lock().unwrap() = Some((n, fl.clone()));
+                }
                 ctx.set_counting(false);
                 Err(TestCaseError::fail(fl.signature))
             }
@@ -525,9 +544,15 @@ where
             match r {
                 Err(fl) => ctx.violation(fl),
                 Ok(()) => {
-                    // non-deterministic closure: infrastructure problem
-                    eprintln!("INCONCLUSIVE: shrunk case for {} / {} does not fail on re-evaluation: {:?}", ctx.prop, stratum, v);
-                    std::process::exit(2);
+                    let Some((n, mut fl)) = first.lock().unwrap().take() else { return };
+                    if external {
+                        ctx.exclude("a failure that did not repeat when the same case was evaluated again (external process, scheduling): not judged");
+                        return;
+                    }
+                    fl.detail = format!("{} -- the case passes when it is evaluated again: the result depends on what was evaluated before it on the same thread (case number {n} of stratum {stratum})", fl.detail);
+                    fl.signature = format!("{}:only-after-other-inputs", fl.signature);
+                    fl.replay = json!({"kind": "stratum-prefix", "stratum": stratum, "cases": n, "tier": ctx.tier.name(), "seed": ctx.seed, "first_failing_case": fl.replay});
+                    ctx.violation(fl);
                 }
             }
         }
